@@ -37,6 +37,10 @@ def cases(draw, tier):
         sched.append([M, pct, draw(st.booleans())])  # third: pass a CompressConfig object instead of an int
     if full and nsweep < 4:
         sched = [[64, 0.3, False], [64, 0.2, True]] + sched
+    if full and draw(st.booleans()):
+        # unperturbed from the second sweep on (the optimiser stops as soon as two sweeps agree, often before the tail of the
+        # schedule above): makes the local-consistency window of the returned state's energy applicable
+        sched = [[64, draw(st.sampled_from([0, 0.2])), draw(st.booleans())]] + [[64, 0, draw(st.booleans())] for _ in range(draw(st.integers(2, 4)))]
     if dav:
         sched = [[64, 0.2, False], [64, 0, True]]
     return {"model": spec, "terms": terms, "hnorm": draw(st.sampled_from([0.5, 1.0, 3.0, 8.0])), "dav": dav,
@@ -85,7 +89,7 @@ class C08(Prop):
                    "nroots <= sector dimension / 2 (the local problems must have at least nroots solutions)"]
 
     def budget(self, tier):
-        return dict(examples=320, shards=16) if tier == "quick" else dict(examples=6000, shards=16)
+        return dict(examples=1280, shards=16) if tier == "quick" else dict(examples=24000, shards=16)
 
     def strategy(self, tier):
         return cases(tier)
@@ -274,6 +278,18 @@ class C08(Prop):
             ek = float(np.real(v.conj() @ (H @ v)) / max(np.linalg.norm(v) ** 2, 1e-300))
             e_states.append(ek)
             r.check("state.energy_variational", ek >= evals[0] - 1e-8 * max(hn, 1.0), f"root {k}: <H>={ek} below exact ground {evals[0]}")
+        # the returned state is the state of the sweeps: without truncation and perturbation every local solve replaces the site
+        # tensor(s) by the local eigenvector, so <H> of the state equals the latest local eigenvalue and the sequence of local
+        # eigenvalues is non-increasing; the energy of the returned state therefore lies between the minima of the last two sweeps
+        ns = len(ev0)
+        if nroots == 1 and omega is None and ns >= 2 and ns <= len(case["sched"]) and \
+                all(case["sched"][k][1] == 0 and case["sched"][k][0] >= bound.max() for k in (ns - 1, ns - 2)):
+            r.classes.append("state_energy_window")
+            wtol = 1e-7 * max(hn, 1.0)
+            r.resid("state_energy_above_window", e_states[0] - ev0[-2], wtol)
+            r.check("state.energy_window", ev0[-1] - wtol <= e_states[0] <= ev0[-2] + wtol,
+                    f"<H> of the returned state {e_states[0]!r} outside [{ev0[-1]!r}, {ev0[-2]!r}] (minima of the last two sweeps, "
+                    f"no truncation / perturbation) method={case['method']} algo={case['algo']}")
         if nroots == 1 and omega is None and not isinstance(res, list):
             try:
                 ex = res.expectation(h_for_expect)
